@@ -29,6 +29,7 @@ class Sched:
         self.labels: list[str] = []
         self.dead = False
         self.holding: dict[str, bool] = {}  # worker name -> holds an item (between get and put)
+        self.multiT = None                  # multi-pass mode: threads per pass (labels get a "<pass>|" prefix)
 
     def register(self, name):
         with self.cv:
@@ -41,7 +42,8 @@ class Sched:
             nm = self.names.get(tid, "?")
             if self.holding.get(nm):
                 # the thread ends while holding an element: the mapped function killed it
-                self.labels.append(f"wPut:{nm[1:]}")
+                k = int(nm[1:])
+                self.labels.append(f"wPut:{k}" if self.multiT is None else f"{k // self.multiT}|wPut:{k % self.multiT}")
                 self.holding[nm] = False
             self.live.discard(tid); self.pending.pop(tid, None)
             self._dispatch(); self.cv.notify_all()
@@ -119,9 +121,20 @@ def install(lp, sched: Sched, state: dict):
         def __init__(self, *a, **k):
             FakeQueue.n += 1
             self.name = "toProc" if FakeQueue.n % 2 == 1 else "results"
+            self.gen = (FakeQueue.n - 1) // 2
             self.items = []
+            if sched.multiT is not None and self.name == "toProc":
+                state["gen"] = self.gen
+                if self.gen >= 1:
+                    sched.labels.append("new")
+        def _tag(self, lab):
+            return lab if sched.multiT is None else f"{self.gen}|{lab}"
+        def _w(self, nm):
+            return nm[1:] if sched.multiT is None else str(int(nm[1:]) % sched.multiT)
         def put(self, x, *a, **k):
             def lab(nm, _):
+                return self._tag(lab0(nm))
+            def lab0(nm):
                 if nm == "c":
                     if state.get("resetting"):
                         return "cReset"
@@ -130,10 +143,12 @@ def install(lp, sched: Sched, state: dict):
                         return "cPut"
                     return "cPutNext"
                 sched.holding[nm] = False
-                return f"wPut:{nm[1:]}"
+                return f"wPut:{self._w(nm)}"
             sched.point("put", self, lambda: self.items.append(x), lab)
         def get(self, *a, **k):
             def lab(nm, res):
+                return self._tag(lab0(nm, res))
+            def lab0(nm, res):
                 if nm == "c":
                     if not state.get("first_get"):
                         state["first_get"] = True
@@ -143,7 +158,7 @@ def install(lp, sched: Sched, state: dict):
                     state["err_seen"] = not isinstance(res, (int, list, lp.StopSentinel))
                     return "cGet"
                 sched.holding[nm] = not isinstance(res, lp.StopSentinel)
-                return f"wGet:{nm[1:]}"
+                return f"wGet:{self._w(nm)}"
             return sched.point("get", self, lambda: self.items.pop(0), lab)
         def qsize(self):
             return len(self.items)
@@ -180,16 +195,17 @@ def install(lp, sched: Sched, state: dict):
         if self._to_process is None:
             return orig_reset(self)
         why = "err" if state.get("err_seen") else ("finish" if self._active_threads == 0 else "abandon")
+        pre = "" if sched.multiT is None else f"{state.get('gen', 0)}|"
         if why == "finish":
-            sched.labels.append("cFinish")
+            sched.labels.append(pre + "cFinish")
         elif why == "abandon":
-            sched.labels.append("cAbandon")
+            sched.labels.append(pre + "cAbandon")
         state["resetting"] = True
         state["why"] = why
         try:
             return orig_reset(self)
         finally:
-            sched.labels.append("cReset")       # the k = T step: queues forgotten
+            sched.labels.append(pre + "cReset")       # the k = T step: queues forgotten
             state["resetting"] = False
             state["first_get"] = False; state["cputs"] = 0; state["err_seen"] = False
 
